@@ -269,3 +269,34 @@ func H_RemoteWatchE2E() {
 		verif.Cover("complete")
 	}
 }
+
+// H_RemoteBadBookmark: a watch started from a malformed or foreign bookmark is refused with an
+// invalid-bookmark error through the remote handle exactly as on the wrapped state.
+func H_RemoteBadBookmark() {
+	tres.RegisterProto()
+	ctx, cancel := context.WithCancel(context.Background())
+	defer cancel()
+	backend := namespaced.NewState(inmem.Build)
+	direct := state.WrapCore(backend)
+	remoteCore, _ := c11.NewRemoteWithWatch(backend)
+	remote := state.WrapCore(remoteCore)
+	verif.Assert(direct.Create(ctx, tres.NewA(tres.NS, "a", "v")) == nil, "pre-state")
+	bm := [][]byte{[]byte("bogus"), make([]byte, 16)}[verif.Choose("bookmark", 2)] // (an empty bookmark is absent on the wire: outside)
+	kind := resource.NewMetadata(tres.NS, tres.TypeA, "", resource.VersionUndefined)
+	var derr, rerr error
+	switch verif.Choose("mode", 3) {
+	case 0:
+		p := resource.NewMetadata(tres.NS, tres.TypeA, "a", resource.VersionUndefined)
+		derr = direct.Watch(ctx, p, make(chan state.Event), state.WithStartFromBookmark(bm))
+		rerr = remote.Watch(ctx, p, make(chan state.Event), state.WithStartFromBookmark(bm))
+	case 1:
+		derr = direct.WatchKind(ctx, kind, make(chan state.Event), state.WithKindStartFromBookmark(bm))
+		rerr = remote.WatchKind(ctx, kind, make(chan state.Event), state.WithKindStartFromBookmark(bm))
+	case 2:
+		derr = direct.WatchKindAggregated(ctx, kind, make(chan []state.Event), state.WithKindStartFromBookmark(bm))
+		rerr = remote.WatchKindAggregated(ctx, kind, make(chan []state.Event), state.WithKindStartFromBookmark(bm))
+	}
+	verif.Assert(derr != nil && state.IsInvalidWatchBookmarkError(derr), "the wrapped state rejects the bookmark as invalid")
+	verif.Assert(rerr != nil && state.IsInvalidWatchBookmarkError(rerr), "the remote handle reports the same invalid-bookmark error")
+	verif.Cover("bad bookmark rejected")
+}
